@@ -219,6 +219,24 @@ class Enc:
                 return None                    # would be read as ONE key;value pair
         return out
 
+    @staticmethod
+    def reads_as_one_pair(t, x):
+        """try_assign_as_kwarg on the WHOLE cell: a two-entry list whose first entry is a string naming a field
+        (after header_name_to_field_name) is ONE key;value pair, whatever the writer meant"""
+        names = {n for (n, _, _) in t[2]}
+        return isinstance(x, list) and len(x) == 2 and isinstance(x[0], str) and t[3].get(x[0], x[0]) in names
+
+    def pair_key(self, t, n):
+        """the key of a key;value pair for field n: the field name, or the header alias of the field
+        (field_name_to_header_name) when header_name_to_field_name maps it back — ArgsKw: key = remap_get h2f k"""
+        h = t[4].get(n, n)
+        if h != n and t[3].get(h, h) == n and self.rng.random() < 0.6:
+            self.tags.add("pair-key-alias")
+            return h
+        if t[3].get(n, n) != n:
+            raise NoEncoding                   # the field name, used as a header, means another field
+        return n
+
     def model(self, t, v, prefix):
         fields = t[2]
         r = self.rng.random()
@@ -234,9 +252,7 @@ class Enc:
         if prefix and r < 0.5 and nondefault:
             if not all(ft[0] in BASIC for (_, ft, _) in nondefault):
                 raise NoEncoding
-            pairs = [[n, btext(ft, v[n])] for (n, ft, _) in nondefault]
-            if any(t[3].get(n, n) != n for (n, _) in pairs):
-                raise NoEncoding
+            pairs = [[self.pair_key(t, n), btext(ft, v[n])] for (n, ft, _) in nondefault]
             self.rng.shuffle(pairs)
             if not rowgen.cell_wf(pairs):
                 raise NoEncoding
@@ -254,11 +270,11 @@ class Enc:
             rest = [(n, ft, d) for (n, ft, d) in fields[i:] if not is_default(d, v[n])]
             if not head or not rest or not all(ft[0] in BASIC for (_, ft, _) in rest):
                 raise NoEncoding
-            if any(t[3].get(n, n) != n for (n, _, _) in rest):
-                raise NoEncoding
-            x = head + [[n, btext(ft, v[n])] for (n, ft, _) in rest]
+            x = head + [[self.pair_key(t, n), btext(ft, v[n])] for (n, ft, _) in rest]
             if not rowgen.cell_wf(x) or any(s == "" for s in head):
                 raise NoEncoding
+            if not self.unsafe and self.reads_as_one_pair(t, x):
+                raise NoEncoding               # side condition of NvModelArgs: as_kwarg (whole cell) = None
             self.tags.add("record-mixed")
             return [(prefix, self.join_nested(x))]
         # spread
@@ -400,6 +416,199 @@ def encode_edges(rng, e, ft, edges, short_of):
         out += cols
     e.tags.add("edges-by-index")
     return out
+
+
+
+# ------------------------------------------------------------------------------ directed `*` groups
+STAR_TEXTS = ["a", "b", "c", "x y", "7", "type", "name", "value", "é", "a;b", "p|q", "has_any_word", "@x"]
+
+
+def _nondefault(rng, ft, d):
+    k = ft[0]
+    if k == "str":
+        for _ in range(20):
+            x = rng.choice(STAR_TEXTS)
+            if x != d:
+                return x
+        return "zz"
+    if k == "int":
+        return rng.choice([x for x in (1, 2, 7, -3, 12) if x != d])
+    if k == "bool":
+        return not d
+    raise ValueError(k)
+
+
+def _star_kinds(rng, nf):
+    """per column: long (a value for every element), short (values for the first k < n elements only),
+    scalar (ONE non-default value, to be broadcast), absent.  Always at least one of long/short/scalar."""
+    kinds = ["long", "short", "scalar"] + [rng.choice(["long", "short", "scalar", "absent"]) for _ in range(nf - 3)]
+    rng.shuffle(kinds)
+    return kinds
+
+
+def _star_values(rng, specs, n):
+    """specs: [(key, ft, default, kind)] -> {key: (kind, k, [value per element])}"""
+    out = {}
+    for (g, ft, d, kind) in specs:
+        if kind == "long":
+            out[g] = (kind, n, [_nondefault(rng, ft, d) for _ in range(n)])
+        elif kind == "short":
+            k = rng.randint(1, n - 1)
+            out[g] = (kind, k, [_nondefault(rng, ft, d) for _ in range(k)] + [d] * (n - k))
+        elif kind == "scalar":
+            x = _nondefault(rng, ft, d)
+            out[g] = (kind, n, [x] * n)
+        else:
+            out[g] = (kind, 0, [d] * n)
+    return out
+
+
+def _star_cell(ft, kind, k, vals):
+    texts = [btext(ft, x) for x in vals[:k]]
+    if kind == "scalar":
+        return esc(texts[0])
+    return join(texts, "|")            # one element: trailing separator, still a list
+
+
+def _column_orders(rng, cols, lens):
+    """column orders of a `*` group: longest list first / last, reversed, random"""
+    idx = list(range(len(cols)))
+    by_len = sorted(idx, key=lambda i: lens[i])
+    orders = [by_len[::-1], by_len, idx[::-1]]
+    sh = idx[:]
+    rng.shuffle(sh)
+    orders.append(sh)
+    seen, out = set(), []
+    for o in orders:
+        if tuple(o) not in seen:
+            seen.add(tuple(o))
+            out.append([cols[i] for i in o])
+    return out
+
+
+def _interleave(rng, main, extra):
+    out = list(main)
+    for c in extra:
+        out.insert(rng.randint(0, len(out)), c)
+    return out
+
+
+def gen_star_group(rng):
+    """R{id: str, p: List[E] = [], z: str = ""}, E with 3..5 basic fields with defaults; a value of n elements
+    and its layouts: `p.*.g` columns in several orders (sibling lists of UNEQUAL lengths, scalars broadcasting a
+    non-default value) and the spread layout `p.i.g`"""
+    nf = rng.randint(3, 5)
+    names = rng.sample(["a", "b", "c", "value", "name", "type", "k", "x_y"], nf)
+    kinds = _star_kinds(rng, nf)
+    n = rng.randint(2, 4)
+    fields, specs = [], []
+    for g, kind in zip(names, kinds):
+        ft = rng.choice([rowlib.STR, rowlib.STR, rowlib.STR, rowlib.INT, rowlib.BOOL])
+        d = {"str": rng.choice(["", "", "dflt"]), "int": rng.choice([0, 5]), "bool": rng.random() < 0.5}[ft[0]]
+        fields.append((g, ft, d))
+        specs.append((g, ft, d, kind))
+    E = ("model", "E", fields, {}, {})
+    R = ("model", "R", [("id", rowlib.STR, REQUIRED), ("p", ("list", E), []), ("z", rowlib.STR, "")], {}, {})
+    vals = _star_values(rng, specs, n)
+    value = {"id": "r1", "p": [{g: vals[g][2][i] for (g, _, _) in fields} for i in range(n)], "z": ""}
+    star_cols, lens = [], []
+    for (g, ft, d, kind) in specs:
+        if kind == "absent":
+            continue
+        star_cols.append((f"p.*.{g}", _star_cell(ft, kind, vals[g][1], vals[g][2])))
+        lens.append(1 if kind == "scalar" else vals[g][1])
+    spread = []
+    for i in range(n):
+        for (g, ft, d) in fields:
+            if vals[g][2][i] != d or rng.random() < 0.3 or g == fields[0][0]:
+                spread.append((f"p.{i + 1}.{g}", btext(ft, vals[g][2][i])))
+    extra = [("id", "r1")] + ([("z", "")] if rng.random() < 0.3 else [])
+    layouts = [_interleave(rng, o, extra) for o in _column_orders(rng, star_cols, lens)]
+    return R, value, layouts, _interleave(rng, spread, extra), kinds, n
+
+
+# the pairing of short and long edge headers AS THE PROPERTY NAMES THEM (condition_X <-> edges.*.condition.X, from <->
+# edges.*.from): written here, not read from the code's table, so that a table that maps a short header to the wrong
+# long form is seen
+FLOW_SHORT_NAMES = {"from_": ["from"], "value": ["condition", "condition_value"], "variable": ["condition_var", "condition_variable"],
+                    "type": ["condition_type"], "name": ["condition_name"]}
+FLOW_STAR_FIELDS = [("from_", "edges.*.from_"), ("value", "edges.*.condition.value"), ("variable", "edges.*.condition.variable"),
+                    ("type", "edges.*.condition.type"), ("name", "edges.*.condition.name")]
+
+
+def gen_flow_star_group(rng, desc, cx):
+    """a flow row whose edges are written with the short headers from/condition/condition_var/condition_type/
+    condition_name (or their long `edges.*...` forms): sibling lists of unequal lengths + scalar broadcasts,
+    and the same row with indexed columns edges.i...."""
+    short_of = {}
+    for h, f in cx["basic"].items():
+        short_of.setdefault(f, []).append(h)
+    kinds = _star_kinds(rng, len(FLOW_STAR_FIELDS))
+    n = rng.randint(2, 4)
+    specs = [(g, rowlib.STR, "", kind) for (g, _), kind in zip(FLOW_STAR_FIELDS, kinds)]
+    vals = _star_values(rng, specs, n)
+    edges = [{"from_": vals["from_"][2][i],
+              "condition": {g: vals[g][2][i] for g in ("value", "variable", "type", "name")}} for i in range(n)]
+    rtype = "send_message"
+    main = cx["sw_table"][rtype]
+    value = {}
+    for (fn, ft, d) in desc[2]:
+        value[fn] = d
+    value.update({"type": rtype, "edges": edges, main: "hi", "row_id": "7"})
+    star_cols, lens = [], []
+    for (g, long_), kind in zip(FLOW_STAR_FIELDS, kinds):
+        if kind == "absent":
+            continue
+        names = [long_] + FLOW_SHORT_NAMES[g]
+        if g == "from_":
+            names.append("edges.*.from")
+        h = rng.choice(names) if rng.random() < 0.3 else rng.choice(FLOW_SHORT_NAMES[g])
+        star_cols.append((h, _star_cell(rowlib.STR, kind, vals[g][1], vals[g][2])))
+        lens.append(1 if kind == "scalar" else vals[g][1])
+    spread = []
+    for i in range(n):
+        spread.append((f"edges.{i + 1}.from", vals["from_"][2][i]))
+        for g in ("value", "variable", "type", "name"):
+            if vals[g][2][i] != "" or rng.random() < 0.2:
+                spread.append((f"edges.{i + 1}.condition.{g}", vals[g][2][i]))
+    extra = [("row_id", "7"), ("type", rtype), (rng.choice([cx["sw_header"], main]), "hi")]
+    layouts = [_interleave(rng, o, extra) for o in _column_orders(rng, star_cols, lens)]
+    return value, layouts, _interleave(rng, spread, extra), kinds, n
+
+
+# ------------------------------------------------------------------------------ the witnesses of the _refuted theorems
+def _m(name, fields):
+    return ("model", name, fields, {}, {})
+
+
+def refutation_witnesses():
+    """(name, model description | "flow", cells, expected) — the exact inputs of the Examples
+    C09_positional_flip_witness / _entry_flip_ / _mixed_flip_ / C09_padded_type_witness in coq/props/C09.v.
+    expected: ("ok", projection) | ("err",).  If the implementation stops behaving like this the refutations no
+    longer describe the code (reported as a disagreement)."""
+    STR, INT = rowlib.STR, rowlib.INT
+    AB = _m("AB", [("a", STR, ""), ("b", STR, "")])
+    RAB = _m("RAB", [("m", AB, {"a": "", "b": ""})])
+    TN = _m("TN", [("tags", ("list", STR), []), ("n", STR, "")])
+    RTN = _m("RTN", [("m", TN, {"tags": [], "n": ""})])
+    AN = _m("AN", [("a", STR, ""), ("n", INT, 0)])
+    RAN = _m("RAN", [("m", AN, {"a": "", "n": 0})])
+    return [
+        ("positional: spread", RAB, [("m.a", "b"), ("m.b", "x")], ("ok", {"m": {"a": "b", "b": "x"}})),
+        ("positional: first value is a field name", RAB, [("m", "b|x")], ("ok", {"m": {"a": "", "b": "x"}})),
+        ("positional: first value is not a field name", RAB, [("m", "c|x")], ("ok", {"m": {"a": "c", "b": "x"}})),
+        ("entry: spread", RTN, [("m.tags.1", "n"), ("m.tags.2", "x"), ("m.n", "foo")], ("ok", {"m": {"tags": ["n", "x"], "n": "foo"}})),
+        ("entry: list-valued positional argument starting with a field name", RTN, [("m", "n;x|foo")], ("ok", {"m": {"tags": [], "n": "foo"}})),
+        ("entry: not a field name", RTN, [("m", "q;x|foo")], ("ok", {"m": {"tags": ["q", "x"], "n": "foo"}})),
+        ("mixed: spread", RAN, [("m.a", "n"), ("m.n", "5")], ("ok", {"m": {"a": "n", "n": 5}})),
+        ("mixed: positional entry is a field name", RAN, [("m", "n|n;5")], ("err",)),
+        ("mixed: not a field name", RAN, [("m", "q|n;5")], ("ok", {"m": {"a": "q", "n": 5}})),
+        ("padded type cell, short header", "flow", [("type", " send_message"), ("message_text", "hi"), ("from", "start")], ("err",)),
+        ("padded type cell, long header", "flow", [("type", " send_message"), ("mainarg_message_text", "hi"), ("from", "start")],
+         ("ok", {"type": "send_message", "mainarg_message_text": "hi"})),
+        ("unpadded type cell, short header", "flow", [("type", "send_message"), ("message_text", "hi"), ("from", "start")],
+         ("ok", {"type": "send_message", "mainarg_message_text": "hi"})),
+    ]
 
 
 # ------------------------------------------------------------------------------ run
@@ -550,6 +759,95 @@ def run(ctx):
             samples.append(dict(flow_cells_short=c1, flow_cells_long=c2))
     flush()
 
+    # ------------------------------------------------ directed `*` groups: unequal sibling lengths, scalar broadcast
+    dstats = {"generic_groups": 0, "flow_groups": 0, "layouts": 0, "kinds": {}, "n": {}}
+    n_star = (4000 if thorough else 250) * ctx.scale
+    for i in range(n_star):
+        rowlib.clear_cache()
+        t, val, layouts, spread, kinds, n = gen_star_group(rng)
+        parser = RowParser(rowlib.py_type(t), CellParser())
+        dstats["generic_groups"] += 1
+        dstats["n"][n] = dstats["n"].get(n, 0) + 1
+        for kd in kinds:
+            dstats["kinds"][kd] = dstats["kinds"].get(kd, 0) + 1
+        ps = impl_parse(parser, spread)
+        v.coverage["evaluations"] += 1
+        if not (ps[0] == "ok" and _deep_eq(ps[1], val)):
+            v.failing_input("encoding-does-not-parse-to-value",
+                            f"the spread layout of a list of records does not parse to the value: model={_show_ty(t)} value={val!r} cells={spread} -> {ps}",
+                            dict(fn="pair", ty=_jsonable_ty(t), value=val, cells1=spread, cells2=spread))
+        impl_list = [ps]
+        for lay in layouts:
+            dstats["layouts"] += 1
+            v.coverage["evaluations"] += 1
+            pl = impl_parse(parser, lay)
+            impl_list.append(pl)
+            nontrivial.add(repr((sorted(lay), sorted(spread))))
+            if not (pl[0] == "ok" and ps[0] == "ok" and _deep_eq(pl[1], ps[1])):
+                v.failing_input("star-layout-dependent-parse",
+                                f"`*` columns and indexed columns of one value parse differently: model={_show_ty(t)} value={val!r} "
+                                f"star={lay} -> {pl}; spread={spread} -> {ps}",
+                                dict(fn="pair", ty=_jsonable_ty(t), value=val, cells1=lay, cells2=spread))
+        if m:
+            rm = rowlib.e_rowmodel(t)
+            cl = [spread] + layouts
+            batch.append(([f"(109 1 {rm} {rowlib.e_cells(c)})" for c in cl], _show_ty(t), cl, impl_list))
+            if len(batch) >= 100:
+                flush()
+        if len(samples) < 8 and i < 2:
+            samples.append(dict(star_group=_show_ty(t), kinds=kinds, star_cells=layouts[0], spread_cells=spread))
+    flush()
+    parser = RowParser(FlowRowModel, CellParser())
+    for i in range(n_star):
+        val, layouts, spread, kinds, n = gen_flow_star_group(rng, desc, cx)
+        dstats["flow_groups"] += 1
+        for kd in kinds:
+            dstats["kinds"][kd] = dstats["kinds"].get(kd, 0) + 1
+        ps = impl_parse(parser, spread)
+        v.coverage["evaluations"] += 1
+        if not (ps[0] == "ok" and _deep_eq(ps[1], val)):
+            v.failing_input("flow-encoding-does-not-parse-to-value",
+                            f"indexed edge columns do not parse to the row: value={val!r} cells={spread} -> {ps}",
+                            dict(fn="flowpair", value=val, cells1=spread, cells2=spread))
+        impl_list = [ps]
+        for lay in layouts:
+            dstats["layouts"] += 1
+            v.coverage["evaluations"] += 1
+            pl = impl_parse(parser, lay)
+            impl_list.append(pl)
+            nontrivial.add(repr((sorted(lay), sorted(spread))))
+            if not (pl[0] == "ok" and ps[0] == "ok" and _deep_eq(pl[1], ps[1])):
+                v.failing_input("flow-star-layout-dependent-parse",
+                                f"short `*` headers and indexed edge columns of one flow row parse differently: star={lay} -> {pl}; "
+                                f"indexed={spread} -> {ps}",
+                                dict(fn="flowpair", value=val, cells1=lay, cells2=spread))
+        if m:
+            cl = [spread] + layouts
+            batch.append(([f"(109 2 {rowlib.e_cells(c)})" for c in cl], "FlowRowModel", cl, impl_list))
+            if len(batch) >= 100:
+                flush()
+        if len(samples) < 10 and i < 2:
+            samples.append(dict(flow_star_cells=layouts[0], flow_indexed_cells=spread, kinds=kinds))
+    flush()
+    stats["directed_star"] = dstats
+
+    # ------------------------------------------------ the witnesses of the _refuted theorems, on the implementation
+    wstats = {"witnesses": 0}
+    for (name, t, cells, expected) in refutation_witnesses():
+        rowlib.clear_cache()
+        wparser = RowParser(FlowRowModel if t == "flow" else rowlib.py_type(t), CellParser())
+        got = impl_parse(wparser, cells)
+        v.coverage["evaluations"] += 1
+        wstats["witnesses"] += 1
+        same = got[0] == expected[0] and (got[0] != "ok" or all(_deep_eq(got[1].get(k), x) for k, x in expected[1].items()))
+        if not same:
+            ctx.disagree("a witness of the _refuted theorems no longer behaves as proved: " + name, dict(cells=cells), expected, got)
+        if m:
+            req = f"(109 2 {rowlib.e_cells(cells)})" if t == "flow" else f"(109 1 {rowlib.e_rowmodel(t)} {rowlib.e_cells(cells)})"
+            batch.append(([req], "witness: " + name, [cells], [got]))
+    flush()
+    stats["refutation_witnesses"] = wstats
+
     # ------------------------------------------------ short/long header table, row type by row type
     if m:
         reqs, exp = [], []
@@ -574,10 +872,14 @@ def run(ctx):
         "(list: spread / one cell with | or ; / bare scalar / empty cell; record: spread / positional / key;value / "
         "mixed / one bare pair; list of records: by index / * columns with per-element list or broadcast / whole list in one "
         "cell; padded basic cells; column permutation that keeps each top-level field's columns in order); flow rows with "
-        "short or long headers per field and edges as * columns or by index; 30% of the generic values additionally get an "
+        "short or long headers per field and edges as * columns or by index; DIRECTED `*` groups (lists of records, flow edges "
+        "under the short headers from/condition/condition_var/condition_type/condition_name): per column long / short (k < n "
+        "values) / one non-default scalar to broadcast / absent, always at least one of each of the first three, in column "
+        "orders longest-first, longest-last, reversed, random, each compared with the indexed layout of the same value; "
+        "30% of the generic values additionally get an "
         "encoding that ignores the keyword/positional side condition (correspondence only). non-trivial = distinct pair "
         "of different cell lists")
-    v.coverage["samples"] = samples[:6]
+    v.coverage["samples"] = samples[:10]
     v.assumptions += [
         "cells contain no Jinja template opener: the model's cell parser is CellParser.parse without templating",
         "the side conditions of Encodes (a positional record of two entries must not start with a field name; no blank "
